@@ -1,5 +1,328 @@
+/-
+  C11 — clustering, triangle and transitivity values equal their definitions.
+
+  Spec/Cluster.lean holds the definitions the implementation's values are compared with on every run
+  (`trianglesAt`, `clusteringAt`, `transitivitySpec`, `generalizedDegreeAt`, `squareAt`, `fagioloAt`, ...).
+  Here: the structural facts the property states about them - self-loops never count, every coefficient lies in
+  [0, 1] - and the counting identity that ties the code's way of counting (per neighbour, ordered) to the
+  definition (per unordered pair of neighbours).
+-/
 import GraphrsModel.ObsClu
+import Mathlib.Algebra.Order.Field.Rat
+import Mathlib.Tactic.Linarith
+import Mathlib.Tactic.Positivity
+import Mathlib.Tactic.NormNum
+import Mathlib.Tactic.Ring
 namespace Graphrs
-/-- placeholder while the framework is brought up: replaced by the property theorems -/
-theorem C11_pairs_nil : Abs.pairs ([] : List Nat) = [] := rfl
+open Abs
+
+/-! ### helpers: `sinsert` / `dedup` / `sumNat` -/
+namespace C11aux
+
+theorem mem_sinsert {α} [DecidableEq α] (s : List α) (x y : α) :
+    y ∈ sinsert s x ↔ y ∈ s ∨ y = x := by
+  unfold sinsert
+  by_cases h : x ∈ s
+  · rw [if_pos h]
+    constructor
+    · exact Or.inl
+    · rintro (h' | rfl)
+      · exact h'
+      · exact h
+  · rw [if_neg h]; simp
+
+theorem nodup_sinsert {α} [DecidableEq α] (s : List α) (x : α) (hs : s.Nodup) :
+    (sinsert s x).Nodup := by
+  unfold sinsert
+  by_cases h : x ∈ s
+  · rw [if_pos h]; exact hs
+  · rw [if_neg h]
+    rw [List.nodup_append]
+    refine ⟨hs, by simp, ?_⟩
+    intro a ha b hb
+    rw [List.mem_singleton] at hb
+    subst hb
+    intro hab
+    subst hab
+    exact h ha
+
+theorem mem_foldl_sinsert {α} [DecidableEq α] (l acc : List α) (y : α) :
+    y ∈ l.foldl sinsert acc ↔ y ∈ acc ∨ y ∈ l := by
+  induction l generalizing acc with
+  | nil => simp
+  | cons x xs ih =>
+    rw [List.foldl_cons, ih, mem_sinsert, List.mem_cons]
+    constructor
+    · rintro ((h | h) | h)
+      · exact Or.inl h
+      · exact Or.inr (Or.inl h)
+      · exact Or.inr (Or.inr h)
+    · rintro (h | h | h)
+      · exact Or.inl (Or.inl h)
+      · exact Or.inl (Or.inr h)
+      · exact Or.inr h
+
+theorem nodup_foldl_sinsert {α} [DecidableEq α] (l acc : List α) (hacc : acc.Nodup) :
+    (l.foldl sinsert acc).Nodup := by
+  induction l generalizing acc with
+  | nil => exact hacc
+  | cons x xs ih => exact ih _ (nodup_sinsert acc x hacc)
+
+theorem mem_dedup {α} [DecidableEq α] (l : List α) (y : α) : y ∈ dedup l ↔ y ∈ l := by
+  unfold dedup
+  rw [mem_foldl_sinsert]
+  simp
+
+theorem nodup_dedup {α} [DecidableEq α] (l : List α) : (dedup l).Nodup :=
+  nodup_foldl_sinsert l [] List.nodup_nil
+
+theorem foldl_add_eq (l : List Nat) (a : Nat) :
+    l.foldl (· + ·) a = a + l.foldl (· + ·) 0 := by
+  induction l generalizing a with
+  | nil => simp
+  | cons x xs ih =>
+    rw [List.foldl_cons, List.foldl_cons, ih (a + x), ih (0 + x)]
+    omega
+
+theorem sumNat_nil : sumNat [] = 0 := rfl
+
+theorem sumNat_cons (x : Nat) (xs : List Nat) : sumNat (x :: xs) = x + sumNat xs := by
+  unfold sumNat
+  rw [List.foldl_cons, foldl_add_eq]
+  omega
+
+theorem sumNat_map_add {α} (l : List α) (f g : α → Nat) :
+    sumNat (l.map fun x => f x + g x) = sumNat (l.map f) + sumNat (l.map g) := by
+  induction l with
+  | nil => rfl
+  | cons x xs ih => simp only [List.map_cons, sumNat_cons, ih]; omega
+
+theorem sumNat_map_le {α} (l : List α) (f g : α → Nat) (h : ∀ x ∈ l, f x ≤ g x) :
+    sumNat (l.map f) ≤ sumNat (l.map g) := by
+  induction l with
+  | nil => exact Nat.le_refl _
+  | cons x xs ih =>
+    simp only [List.map_cons, sumNat_cons]
+    have h1 := h x (List.mem_cons_self)
+    have h2 := ih (fun y hy => h y (List.mem_cons_of_mem _ hy))
+    omega
+
+theorem sumNat_map_const_one {α} (l : List α) : sumNat (l.map fun _ => 1) = l.length := by
+  induction l with
+  | nil => rfl
+  | cons x xs ih => simp only [List.map_cons, sumNat_cons, ih, List.length_cons]; omega
+
+theorem sumNat_map_id (l : List Nat) : sumNat (l.map fun x => x) = sumNat l := by
+  simp
+
+/-! ### the pair-counting lemma -/
+
+theorem two_mul_pairs_length {α} (l : List α) : 2 * (Abs.pairs l).length = l.length * (l.length - 1) := by
+  induction l with
+  | nil => rfl
+  | cons x xs ih =>
+    simp only [Abs.pairs, List.length_append, List.length_map, List.length_cons, Nat.add_sub_cancel]
+    rw [Nat.mul_add, ih]
+    cases h : xs.length with
+    | zero => simp
+    | succ n => simp only [Nat.add_sub_cancel]; ring
+
+/-- adding `x` in front of the filtered list adds one for every `w` related to `x` -/
+theorem sum_filter_cons {α} (r : α → α → Bool) (x : α) (ys xs : List α) :
+    sumNat (xs.map fun w => ((x :: ys).filter (r w)).length)
+      = (xs.filter fun w => r w x).length + sumNat (xs.map fun w => (ys.filter (r w)).length) := by
+  induction xs with
+  | nil => rfl
+  | cons w ws ih =>
+    simp only [List.map_cons, sumNat_cons, ih]
+    by_cases h : r w x = true
+    · simp [h]; omega
+    · simp [h]; omega
+
+theorem count_identity {α} (r : α → α → Bool) (hirr : ∀ x, r x x = false)
+    (hsymm : ∀ x y, r x y = r y x) (l : List α) :
+    sumNat (l.map fun w => (l.filter (r w)).length)
+      = 2 * ((Abs.pairs l).filter fun p => r p.1 p.2).length := by
+  induction l with
+  | nil => rfl
+  | cons x xs ih =>
+    rw [List.map_cons, sumNat_cons, sum_filter_cons, ih]
+    have h1 : ((x :: xs).filter (r x)).length = (xs.filter (r x)).length := by
+      simp [hirr]
+    have h2 : (xs.filter fun w => r w x) = xs.filter (r x) := by
+      congr 1; funext w; exact hsymm w x
+    have h3 : ((xs.map fun y => (x, y)).filter fun p => r p.1 p.2).length = (xs.filter (r x)).length := by
+      rw [List.filter_map, List.length_map]; rfl
+    simp only [Abs.pairs, List.filter_append, List.length_append, h1, h2, h3]
+    omega
+
+/-! ### histogram -/
+
+theorem sum_indicator {d : List Nat} (hd : d.Nodup) (f : Nat → Nat) (y : Nat) (hy : y ∈ d) :
+    sumNat (d.map fun k => if y = k then f k else 0) = f y := by
+  induction d with
+  | nil => cases hy
+  | cons k ks ih =>
+    rw [List.nodup_cons] at hd
+    simp only [List.map_cons, sumNat_cons]
+    by_cases h : y = k
+    · subst h
+      have : sumNat (ks.map fun k => if y = k then f k else 0) = 0 := by
+        have hz : (ks.map fun k => if y = k then f k else 0) = ks.map fun _ => 0 := by
+          apply List.map_congr_left
+          intro k hk
+          have : y ≠ k := fun e => hd.1 (e ▸ hk)
+          simp [this]
+        rw [hz]
+        clear ih hy hd hz
+        induction ks with
+        | nil => rfl
+        | cons a as ih => simp only [List.map_cons, sumNat_cons, ih]
+      simp [this]
+    · have hy' : y ∈ ks := by
+        rcases List.mem_cons.mp hy with h' | h'
+        · exact absurd h' h
+        · exact h'
+      simp [h, ih hd.2 hy']
+
+theorem histogram {d : List Nat} (hd : d.Nodup) (f : Nat → Nat) (c : List Nat) (hc : ∀ x ∈ c, x ∈ d) :
+    sumNat (d.map fun k => f k * (c.filter (· == k)).length) = sumNat (c.map f) := by
+  induction c with
+  | nil =>
+    simp only [List.filter_nil, List.length_nil, Nat.mul_zero, List.map_nil]
+    clear hc hd
+    induction d with
+    | nil => rfl
+    | cons a as ih => simp only [List.map_cons, sumNat_cons, ih]; omega
+  | cons y ys ih =>
+    have hy : y ∈ d := hc y List.mem_cons_self
+    have ih' := ih (fun x hx => hc x (List.mem_cons_of_mem _ hx))
+    have hfun : (fun k => f k * ((y :: ys).filter (· == k)).length)
+        = fun k => (if y = k then f k else 0) + f k * (ys.filter (· == k)).length := by
+      funext k
+      by_cases h : y = k
+      · simp [h, Nat.mul_add]; omega
+      · simp [h]
+    rw [hfun, sumNat_map_add, ih', sum_indicator hd f y hy, List.map_cons, sumNat_cons]
+
+end C11aux
+open C11aux
+
+/-! ### neighbourhoods -/
+
+theorem C11_mem_bothOf (a : Abs) (u v : Nat) :
+    u ∈ a.bothOf v ↔ (∃ e ∈ a.edges, e.u = v ∧ e.v = u) ∨ (∃ e ∈ a.edges, e.v = v ∧ e.u = u) := by
+  simp [Abs.bothOf, Abs.succOf, Abs.predOf, mem_dedup, List.mem_append, List.mem_map, List.mem_filter, and_assoc]
+
+theorem C11_mem_N (a : Abs) (u v : Nat) : u ∈ a.N v ↔ u ∈ a.bothOf v ∧ u ≠ v := by
+  simp [Abs.N, List.mem_filter]
+
+/-- self-loops never count: a node is never its own neighbour -/
+theorem C11_N_irrefl (a : Abs) (v : Nat) : v ∉ a.N v := by
+  rw [C11_mem_N]; simp
+
+theorem C11_N_nodup (a : Abs) (v : Nat) : (a.N v).Nodup := by
+  unfold Abs.N Abs.bothOf
+  exact (nodup_dedup _).filter _
+
+/-- neighbourhood is symmetric (edges are read in both directions) -/
+theorem C11_N_symm (a : Abs) (u v : Nat) : u ∈ a.N v ↔ v ∈ a.N u := by
+  rw [C11_mem_N, C11_mem_N, C11_mem_bothOf, C11_mem_bothOf]
+  constructor
+  · rintro ⟨h | h, hne⟩
+    · obtain ⟨e, he, h1, h2⟩ := h
+      exact ⟨Or.inr ⟨e, he, h2, h1⟩, fun h => hne h.symm⟩
+    · obtain ⟨e, he, h1, h2⟩ := h
+      exact ⟨Or.inl ⟨e, he, h2, h1⟩, fun h => hne h.symm⟩
+  · rintro ⟨h | h, hne⟩
+    · obtain ⟨e, he, h1, h2⟩ := h
+      exact ⟨Or.inr ⟨e, he, h2, h1⟩, fun h => hne h.symm⟩
+    · obtain ⟨e, he, h1, h2⟩ := h
+      exact ⟨Or.inl ⟨e, he, h2, h1⟩, fun h => hne h.symm⟩
+
+theorem C11_adjacent_irrefl (a : Abs) (w : Nat) : a.adjacent w w = false := by
+  simp [Abs.adjacent]
+
+theorem C11_adjacent_symm (a : Abs) (u w : Nat) : a.adjacent u w = a.adjacent w u := by
+  rw [Bool.eq_iff_iff]
+  simp only [Abs.adjacent, Bool.and_eq_true, bne_iff_ne, List.contains_iff_mem, ne_eq]
+  rw [C11_N_symm a w u]
+  constructor
+  · rintro ⟨h1, h2⟩; exact ⟨fun h => h1 h.symm, h2⟩
+  · rintro ⟨h1, h2⟩; exact ⟨fun h => h1 h.symm, h2⟩
+
+theorem C11_pairs_length {α} (l : List α) : (Abs.pairs l).length = l.length * (l.length - 1) / 2 := by
+  rw [← two_mul_pairs_length]; omega
+
+/-- the number of triangles through v is at most the number of neighbour pairs -/
+theorem C11_triangles_le_pairs (a : Abs) (v : Nat) :
+    a.trianglesAt v ≤ (a.N v).length * ((a.N v).length - 1) / 2 := by
+  rw [← C11_pairs_length]
+  exact List.length_filter_le _ _
+
+private theorem unit_of_le (t p : Nat) (h : t ≤ p) : 0 ≤ (t : Rat) / (p : Rat) ∧ (t : Rat) / (p : Rat) ≤ 1 := by
+  have h0 : (0 : Rat) ≤ (t : Rat) := Nat.cast_nonneg t
+  have hp : (0 : Rat) ≤ (p : Rat) := Nat.cast_nonneg p
+  have hle : (t : Rat) ≤ (p : Rat) := Nat.cast_le.mpr h
+  exact ⟨div_nonneg h0 hp, div_le_one_of_le₀ hle hp⟩
+
+/-- **every clustering coefficient lies in [0, 1]** -/
+theorem C11_clustering_unit_interval (a : Abs) (v : Nat) : 0 ≤ a.clusteringAt v ∧ a.clusteringAt v ≤ 1 := by
+  unfold Abs.clusteringAt
+  simp only
+  split
+  · exact ⟨le_refl _, zero_le_one⟩
+  · exact unit_of_le _ _ (C11_triangles_le_pairs a v)
+
+/-- **the code's count equals the definition**: summing, over the neighbours w of v, the number of neighbours of v adjacent to w
+    counts every triangle through v twice (once per orientation) -/
+theorem C11_triangle_count_identity (a : Abs) (v : Nat) :
+    sumNat ((a.N v).map fun w => ((a.N v).filter fun k => a.adjacent w k).length) = 2 * a.trianglesAt v := by
+  unfold Abs.trianglesAt
+  exact count_identity (fun w k => a.adjacent w k) (C11_adjacent_irrefl a) (C11_adjacent_symm a) (a.N v)
+
+/-- the generalized degree histogram accounts for every edge at v, and its weighted sum is twice the triangle count -/
+theorem C11_generalized_degree_sums (a : Abs) (v : Nat) :
+    sumNat ((a.generalizedDegreeAt v).map (·.2)) = (a.N v).length ∧
+    sumNat ((a.generalizedDegreeAt v).map fun kv => kv.1 * kv.2) = 2 * a.trianglesAt v := by
+  rw [← C11_triangle_count_identity]
+  unfold Abs.generalizedDegreeAt
+  simp only [List.map_map]
+  generalize hc : ((a.N v).map fun w => ((a.N v).filter fun k => a.adjacent w k).length) = c
+  have hmem : ∀ x ∈ c, x ∈ dedup c := fun x hx => (mem_dedup c x).mpr hx
+  constructor
+  · have h := histogram (nodup_dedup c) (fun _ => 1) c hmem
+    rw [sumNat_map_const_one] at h
+    have hlen : c.length = (a.N v).length := by rw [← hc, List.length_map]
+    rw [← hlen, ← h]
+    congr 1
+    apply List.map_congr_left
+    intro k _
+    simp
+  · have h := histogram (nodup_dedup c) (fun k => k) c hmem
+    rw [sumNat_map_id] at h
+    rw [← h]
+    rfl
+
+/-- transitivity lies in [0, 1] -/
+theorem C11_transitivity_unit_interval (a : Abs) : 0 ≤ a.transitivitySpec ∧ a.transitivitySpec ≤ 1 := by
+  unfold Abs.transitivitySpec
+  simp only
+  split
+  · exact ⟨le_refl _, zero_le_one⟩
+  · exact unit_of_le _ _ (sumNat_map_le _ _ _ (fun v _ => C11_triangles_le_pairs a v))
+
+/-- non-vacuity: a triangle with a pendant node and a self-loop -/
+example :
+    let a : Abs := { nodes := [⟨1, none⟩, ⟨2, none⟩, ⟨3, none⟩, ⟨4, none⟩],
+                     edges := [⟨1, 2, none, none⟩, ⟨2, 3, none, none⟩, ⟨1, 3, none, none⟩, ⟨3, 4, none, none⟩, ⟨3, 3, none, none⟩] }
+    a.trianglesAt 3 = 1 ∧ a.clusteringAt 3 = 1 / 3 ∧ a.trianglesAt 4 = 0 := by
+  intro a
+  have hT : a.trianglesAt 3 = 1 := by decide
+  have hN : (a.N 3).length = 3 := by decide
+  refine ⟨hT, ?_, by decide⟩
+  unfold Abs.clusteringAt
+  simp only [hT, hN]
+  norm_num
+
 end Graphrs
